@@ -746,7 +746,10 @@ static int write_loop_start(cif_loop_tp *loop, void *context) {
                             result = cif_validate_cif11_characters(*next_name, NULL);
                         }
                         if (result == CIF_TRAVERSE_CONTINUE) {
-                            if (u_fprintf(CONTEXT_UFILE(context), " %S\n", *next_name) < 4) {
+                            /* a name that fills the line cannot be indented */
+                            if (u_fprintf(CONTEXT_UFILE(context),
+                                    (u_countChar32(*next_name, -1) < LINE_LENGTH(context)) ? " %S\n" : "%S\n",
+                                    *next_name) < 3) {
                                 result = CIF_ERROR;
                             }
                             SET_LAST_COLUMN(context, 0);
